@@ -174,9 +174,20 @@ class Exec(Part):
         self.pkg = os.path.join(ctx.scratch, "genpkg")
         os.makedirs(self.pkg)
         sys.path.insert(0, self.pkg)
+        self.broken = None
         self._mk()
 
     def _mk(self):
+        """(re)create the gateways; creation itself is guarded: if it hangs, every case reports that"""
+        with Watchdog(90) as wd:
+            try:
+                self._mk_unguarded()
+            except BaseException as e:  # noqa: BLE001
+                self.broken = f"creating the gateways failed: {type(e).__name__}: {e}"
+        if wd.fired:
+            self.broken = "creating popen/socket/via gateways did not finish within 90 s"
+
+    def _mk_unguarded(self):
         self.group = self.execnet.Group()
         self.base = self.group.makegateway("popen//id=base")
         self.gws = [("popen", self.group.makegateway("popen//id=direct")),
@@ -199,6 +210,8 @@ class Exec(Part):
         io_.write = counting
 
     def _drop(self):
+        if not hasattr(self, "group"):
+            return
         try:
             with Watchdog(30):
                 self.group.terminate(timeout=2.0)
@@ -237,15 +250,24 @@ class Exec(Part):
     def run(self, case, ctx):
         kind, p = case
         n = next(_n)
+        if self.broken:
+            if ctx.extra.get("broken_reported"):
+                return dict(labels=["skipped:gateways-broken"], nontrivial=False, count=0)
+            ctx.count("broken_reported")
+            raise Violation("exec.gateway-creation", self.broken)
+        if ctx.extra.get("hangs", 0) >= 2:
+            ctx.count("skipped_after_hang_fuse")  # every further hang would cost another watchdog period
+            return dict(labels=["skipped:fuse"], nontrivial=False, count=0)
         tname, gw = self.gws[n % len(self.gws)]
         try:
-            with Watchdog(120) as wd:
+            with Watchdog(60) as wd:
                 if kind == "reject":
                     out = self._reject(p, tname, gw)
                 else:
                     out = self._run(p, tname, gw)
             if wd.fired:
-                raise Violation("exec.hang", f"{tname}: case did not finish within 120 s")
+                ctx.count("hangs")
+                raise Violation("exec.hang", f"{tname}: case did not finish within 60 s (normal: well below 1 s)", site=tname)
             if not gw.hasreceiver():
                 raise Violation("exec.gateway-dead", f"{tname}: gateway no longer receive-live after the program", site=tname)
             return out
